@@ -182,7 +182,7 @@ class Feature(VariabilityElement):
         return any(r.is_mutex() for r in self.get_relations())
 
     def is_cardinality_group(self) -> bool:
-        return any(r.is_cardinal() for r in self.get_relations())
+        return any(r.is_group() and r.is_cardinal() for r in self.get_relations())
 
     def is_group(self) -> bool:
         return any(r.is_group() for r in self.get_relations())
